@@ -314,7 +314,7 @@ class FDI:
         self.loop_k = loop_k
         self.max_rows = max_rows
         self.max_steps = max_steps
-        self.no_inline = [re.compile(r) for r in no_inline]
+        self.no_inline = [re.compile(r) for r in list(no_inline) + DEFAULT_NO_INLINE]
         self.opaque_types = [re.compile(r) for r in opaque_types]
         self.rows = []
         self.work = []
@@ -413,7 +413,19 @@ class FDI:
                 st.refine[v.n] = r
                 return r
             return v
+        if p[0] == 'i':
+            if isinstance(v, Const) and isinstance(v.v, (bytes, str)):
+                return Const(v.v[p[1]] if isinstance(v.v, bytes) else ord(v.v[p[1]])) if p[1] < len(v.v) else Unknown('index out of range')
+            if isinstance(v, Agg) and v.adt == 'array' and p[1] < len(v.fields):
+                return v.fields[p[1]]
+            if isinstance(v, Sym):
+                return Sym(f"{v.n}[{p[1]}]", 'u8', ('index', v.x, p[1]))
+            return Unknown(f"index of {type(v).__name__}")
         if p[0] == 'f':
+            if isinstance(v, Agg) and v.adt == 'opaque' and p[1] >= len(v.fields):
+                base = v.origin or 'opaque'
+                for i in range(len(v.fields), p[1] + 1):
+                    v.fields.append(Sym(f"{base}.{i}", None, ('field', ('atom', base), str(i))))
             if isinstance(v, Agg):
                 if p[1] < len(v.fields):
                     fv = v.fields[p[1]]
@@ -463,6 +475,8 @@ class FDI:
                 proj.append(('f', e['i'], e.get('name'), e.get('ty')))
             elif k == 'downcast':
                 proj.append(('d', e['variant']))
+            elif k == 'constindex' and not e.get('from_end'):
+                proj.append(('i', e['offset']))
             else:
                 c = st.alloc(Unknown(f"projection {k}"))
                 cell, proj = c, []
@@ -514,6 +528,9 @@ class FDI:
     def _refine_for_write(self, st, sym, nextp):
         variant = nextp[1] if nextp[0] == 'd' else None
         r = self.refine_sym(st, sym, variant)
+        if r is None and nextp[0] == 'f':
+            # struct-like value of a type without ADT facts (closure environment, foreign struct): open-ended field list
+            r = Agg('opaque', None, [Sym(f"{sym.n}.{i}", None, ('field', sym.x, str(i))) for i in range(nextp[1] + 1)], ty=sym.ty, origin=sym.n)
         if r is not None:
             st.refine[sym.n] = r
         return r
@@ -1134,16 +1151,40 @@ class FDI:
 
 
 CONSUMED = object()
+# reporting helpers: their inside (error channel selection, formatting) is never part of a decision under analysis
+DEFAULT_NO_INLINE = [r'^util::eprint_(err|msg)$']
 
 
 # ------------------------------------------------------------------------------------------------ std models
 def m_passthrough(I, st, fr, t, args, name):
+    if name in I.f.bodies:
+        return NotImplemented      # a crate-local impl (e.g. From<u8> for Duplicate) is interpreted, not skipped
     return args[0]
+
+
+SMART = re.compile(r"^(std::sync::(MutexGuard|RwLockReadGuard|RwLockWriteGuard|Arc)|std::boxed::Box|std::cell::(RefMut|Ref)|std::rc::Rc)<('_, )?(.*)>$")
 
 
 def m_deref(I, st, fr, t, args, name):
     a = args[0]
-    # Deref of Arc/Box/MutexGuard/PathBuf/String...: treat the smart pointer as its pointee
+    # Deref of Arc/Box/MutexGuard/...: the smart pointer is modelled as its pointee; an atom of smart-pointer type is
+    # re-typed to the pointee type (memoised, so that every deref of one guard reaches the same cell)
+    v = a
+    if isinstance(a, Ref):
+        try:
+            v = I.resolve(st, I.read_cell_path(st, a.cell, a.proj))
+        except Exception:
+            return a
+    if isinstance(v, Sym) and v.ty:
+        m = SMART.match(v.ty)
+        if m:
+            inner = split_generics('X<' + m.group(5) + '>')[1]
+            inner_ty = inner[0] if inner else m.group(5)
+            key = f"@deref:{v.n}"
+            if key not in st.refine:
+                c = st.alloc(Sym(v.n, inner_ty, v.x))
+                st.refine[key] = Ref(c)
+            return st.refine[key]
     return a
 
 
